@@ -1,5 +1,6 @@
 import IbModel.Util.Wire
 import IbModel.Model.Combiners
+import IbModel.Model.CombinersExt
 /-!
 Driver handlers for C06.
 
@@ -15,6 +16,19 @@ Driver handlers for C06.
 * `<tree-accumulator>`: the accumulator the program leaves, before `finish`, in canonical form (`a=…`;
   set / heap contents ascending; `F<sum> n=<count>` for `avg`).
 * outputs: integer; `PANIC`; `F<decimal>` (rational, 15 fractional digits); lists comma-separated (`-` = empty).
+
+Round 3 names (other element types; `Model/CombinersExt.lean`):
+* `xsum` / `xavg` — `Sum<f64>` / `AverageF64` on IEEE doubles: a value is the 16-digit hex BIT PATTERN of the `f64`;
+  outputs are `X<hex bits>` or `NaN` (every NaN; its sign/payload is not determined by IEEE). A fourth answer token
+  `C=<class>`: for `<k> = 1` (the generator's "no finite addition can overflow" regime) the class {fin,+inf,-inf,nan}
+  the classification theorem predicts from the classes of the inputs (`sumClass`), for `<k> = 0` it is `C=?`.
+* `omin` / `omax` / `otopk` — `Min/Max/TopK<OrdF64>`: elements are hex bit patterns, printed back as `X<hex>` exactly.
+* `tmin` / `tmax` — `Min/Max<Tagged>`, elements `key:tag`, `Ord` on `key` only; the output shows key AND tag (the tie
+  rule of each entry point). `tmaxd` — the real `Max<Tagged>` behind a wrapper that does NOT override
+  `build_from_group` (the trait's default loop). `ttopk` — `TopK<Tagged>`; outputs and accumulator are projected on the keys (which of
+  several `Ord`-equal elements the standard library's heap drops is not modelled).
+* `kmv` — `KMVApproxDistinctCount::new(k)`; the values are the ranks (hex bit patterns of the `f64` rank of each input value).
+* `FCMP <a> <b>` ↦ `<LT|EQ|GT by ordKey> <LT|EQ|GT by the literal bit trick>` — `OrdF64::cmp` on two bit patterns.
 -/
 namespace IB.D06
 open IB IB.Wire IB.Combiners
@@ -93,6 +107,72 @@ def accSet (s : List Int) : String := "a=" ++ showInts (s.mergeSort leInt)
 /-- the heap's contents, ascending — the model's list is printed as it is -/
 def accHeap (h : List Int) : String := "a=" ++ showInts h
 
+/-! ### round 3: other element types -/
+
+def hexNat? (s : String) : Option Nat :=
+  s.toList.foldlM (fun acc c => (hexDigit? c).map (fun d => acc * 16 + d)) 0
+def bits? (s : String) : Option UInt64 :=
+  if s.length != 16 then none else (hexNat? s).map UInt64.ofNat
+def float? (s : String) : Option Float := (bits? s).map Float.ofBits
+
+def hex16 (b : UInt64) : String :=
+  String.ofList ((List.range 16).map (fun i => nibble ((b.toNat >>> (4 * (15 - i))) % 16)))
+def showBits (b : UInt64) : String := "X" ++ hex16 b
+def showBitsList (xs : List UInt64) : String := if xs.isEmpty then "-" else ",".intercalate (xs.map showBits)
+def showOptBits : Option UInt64 → String
+  | some v => showBits v
+  | none => "PANIC"
+/-- a computed double: every NaN prints as `NaN` -/
+def showFloat (x : Float) : String := if x.isNaN then "NaN" else showBits x.toBits
+
+def tagged? (s : String) : Option Tagged :=
+  match s.splitOn ":" with
+  | [k, t] => match parseInt? k, parseNat? t with
+    | some k, some t => some (k, t)
+    | _, _ => none
+  | _ => none
+def showTagged (x : Tagged) : String := toString x.1 ++ ":" ++ toString x.2
+def showOptTagged : Option Tagged → String
+  | some v => showTagged v
+  | none => "PANIC"
+def showKeys (xs : List Tagged) : String := showInts (xs.map (·.1))
+
+/-- `run` plus the class token of the float combiners -/
+def runX {A : Type} (c : Combiner Float A Float) (showAcc : A → String) (isAvg : Bool) (safe : Nat)
+    (all : String) (prog : List String) : String :=
+  match parseList? float? all, prog.mapM (parseTok? float?) with
+  | some xs, some toks =>
+    match build? toks [] with
+    | some t =>
+      let acc := t.eval c
+      let cls : String :=
+        if safe == 1 then
+          let cs := t.leaves.map (fun x => clsBits x.toBits)
+          (if isAvg && cs.length == 0 then FClass.fin else sumClass cs).str
+        else if safe == 0 then "?" else "BAD"
+      showFloat (c.finish acc) ++ " " ++ showFloat (c.finish (c.foldAdd c.create xs)) ++ " " ++ showAcc acc
+        ++ " C=" ++ cls
+    | none => "BAD-OP"
+  | _, _ => "BAD-OP"
+
+def sortF (xs : List Float) : List Float := xs.mergeSort (fun a b => decide (a ≤ b))
+def showFloats (xs : List Float) : String := if xs.isEmpty then "-" else ",".intercalate (xs.map showFloat)
+def showKmvOut : IB.Sketches.KmvOut Float → String
+  | .zero => showFloat 0.0
+  | .exact m => showFloat (UInt64.ofNat m).toFloat
+  | .est k rk => showFloat (((UInt64.ofNat k).toFloat - 1.0) / rk)
+  | .panic => "PANIC"
+def showKmvAcc (a : IB.Sketches.KMV Float) : String :=
+  "a=H" ++ showFloats (sortF a.heap) ++ "/S" ++ showFloats (sortF a.set) ++ "/k" ++ toString a.k
+
+def handleFcmp : List String → String
+  | [a, b] =>
+    match bits? a, bits? b with
+    | some a, some b =>
+      cmpStr ltF64 a b ++ " " ++ cmpStr (fun x y => decide (totalCmpKeyBits x < totalCmpKeyBits y)) a b
+    | _, _ => "BAD-OP"
+  | _ => "BAD-OP"
+
 def handleComb : List String → String
   | name :: k :: all :: "|" :: prog =>
     match parseNat? k with
@@ -108,9 +188,21 @@ def handleComb : List String → String
       | "dcount" => run (distinctCount Int) parseInt? toString accSet all prog
       | "dset" => run distinctSet parseInt? showInts accSet all prog
       | "topk" => run (topK k) parseInt? showInts accHeap all prog
+      | "xsum" => runX sumF (fun a => "a=" ++ showFloat a) false k all prog
+      | "xavg" => runX averageF (fun a => "a=" ++ showFloat a.1 ++ "/n=" ++ toString a.2) true k all prog
+      | "omin" => run (minBy ltF64) bits? showOptBits (fun a => "a=" ++ (a.map showBits).getD "none") all prog
+      | "omax" => run (maxBy ltF64) bits? showOptBits (fun a => "a=" ++ (a.map showBits).getD "none") all prog
+      | "otopk" => run (topKBy leF64 k) bits? showBitsList (fun a => "a=" ++ showBitsList a) all prog
+      | "tmin" => run (minBy ltKey) tagged? showOptTagged (fun a => "a=" ++ (a.map showTagged).getD "none") all prog
+      | "tmax" => run (maxBy ltKey) tagged? showOptTagged (fun a => "a=" ++ (a.map showTagged).getD "none") all prog
+      | "tmaxd" => run (maxByDefault ltKey) tagged? showOptTagged (fun a => "a=" ++ (a.map showTagged).getD "none") all prog
+      | "ttopk" => run (topKBy leKey k) tagged? showKeys (fun a => "a=" ++ showKeys a) all prog
+      | "kmv" =>
+        if (parseList? float? all).any (fun xs => xs.any Float.isNaN) then "BAD-OP"
+        else run (kmvComb (α := Float) k) float? showKmvOut showKmvAcc all prog
       | _ => "BAD-OP"
   | _ => "BAD-OP"
 
-def handlers : List (String × (List String → String)) := [("COMB", handleComb)]
+def handlers : List (String × (List String → String)) := [("COMB", handleComb), ("FCMP", handleFcmp)]
 
 end IB.D06
